@@ -6,7 +6,7 @@ what=${1:-all}
 run() { # id prop patch
   local W; W=$(mktemp -d /tmp/regress-XXXX); rmdir "$W"
   git -C /repo worktree add -q "$W" HEAD || { echo "$1 $2 WORKTREE-FAIL"; return; }
-  if ! git -C "$W" apply --3way "$3" >/dev/null 2>&1; then echo "$1 $2 PATCH-DOES-NOT-APPLY"; git -C /repo worktree remove --force "$W"; return; fi
+  P=$(readlink -f "$3"); if ! git -C "$W" apply --3way "$P" >/dev/null 2>&1 && ! git -C "$W" apply "$P" >/dev/null 2>&1; then echo "$1 $2 PATCH-DOES-NOT-APPLY"; git -C /repo worktree remove --force "$W"; return; fi
   if ! (cd "$W" && GOFLAGS=-mod=mod GOPROXY=off go build ./... >/dev/null 2>&1); then echo "$1 $2 DOES-NOT-BUILD"; git -C /repo worktree remove --force "$W"; return; fi
   out=$(VERIF_REPO="$W" ./check "$2" quick 2>&1); rc=$?
   sig=$(echo "$out" | grep -m1 "what:" | sed 's/.*\[\(.*\)\] (seen.*/\1/' | cut -c1-110)
